@@ -307,7 +307,12 @@ def make_reference(mol):
         # insertion code, etc.
         reference_graph.add_node(residx, reference=reference, found=residue,
                                  match=match, **residues.nodes[residx])
-    reference_graph.add_edges_from(residues.edges())
+    # Residues without a match were skipped above; edges must not bring them
+    # back as nodes without reference.
+    reference_graph.add_edges_from(
+        (idx, jdx) for idx, jdx in residues.edges()
+        if idx in reference_graph and jdx in reference_graph
+    )
     return reference_graph
 
 
